@@ -5,6 +5,7 @@
 (*  {"ev":"in","svcs":[..],"isolate":B,"who":S,"proto":N,"dport":N,          *)
 (*   "variant":V,"flow":B,"friends":"both"|"none","totun":B,"panic":B}                               *)
 (*  {"ev":"in",...,"variant":"icmp-quote","proto":58,"dport":0,"flow":B (local host pinged who),"kind":S,"what":S,"hist":S,"icmp":text} *)
+(*  {"ev":"in",...,"variant":"history","again":N,"handed":B,"late":B,"behind":N,...}  one delivery of a delivery history *)
 (*  {"ev":"out","isolate":B,"srcisme":B,"dst":S,"proto":N,"tomesh":B}        *)
 (*  {"ev":"policy","svcs":[..],"who":S,"proto":N,"port":N,"allowed":B}       *)
 (*       return value of CheckInboundTrafficPolicy                           *)
@@ -31,6 +32,12 @@ InOK == /\ ~Ev.panic
                 \* ... and a service that admits ICMPv6 from `who` admits this message (the flow reading is a permission only:
                 \* a router may well refuse an error message that has nothing to do with the echo the local host sent)
                 /\ InboundToTun(Ev.svcs, Ev.isolate, Ev.who, 58, 0, "ok", FALSE, Ev.friends) => Ev.totun
+           ELSE IF Ev.variant = "history"
+           \* one delivery of a delivery history of one sender (genuine frames, sealed by `who`, inner = outer addresses):
+           \* Ev.again = number of earlier deliveries of this very frame, Ev.handed = one of them was handed to the interface,
+           \* Ev.late = a frame sealed after this one had been delivered before it (Ev.behind, Ev.note, Ev.via: for the reader)
+           THEN /\ Ev.totun => MayHandOn(Ev.svcs, Ev.isolate, Ev.who, Ev.proto, Ev.dport, Ev.flow, Ev.friends, Ev.handed)
+                /\ MustHandOn(Ev.svcs, Ev.isolate, Ev.who, Ev.proto, Ev.dport, Ev.flow, Ev.friends, Ev.again > 0, Ev.late) => Ev.totun
            ELSE IF Ev.variant = "exthdr"
            THEN Ev.totun => InboundToTun(Ev.svcs, Ev.isolate, Ev.who, Ev.proto, Ev.dport, "ok", FALSE, Ev.friends)
            ELSE Ev.totun <=> InboundToTun(Ev.svcs, Ev.isolate, Ev.who, Ev.proto, Ev.dport, Ev.variant, Ev.flow, Ev.friends)
